@@ -29,6 +29,7 @@ RULE = (
     "save loads as the new registry. For a third of the pairs every state a first crash left behind is the start of a SECOND save that is killed at every operation again (crash, restart, load, save, crash). evaluations counts forked crash runs. Non-trivial = a crash strictly inside a save with old != new "
     "and old not empty; distinct = distinct (old, new) pair."
     ' Round 6: the save is reached through save(), load()+save(), start()..stop() or the gateway context; the old file may be in the legacy layout (with or without nulls); an enumerated grid of entry point x layout x grow/shrink/same/none.'
+    ' Round 7: `link` - the live path is a symbolic link to the real file.'
 )
 ASSUMPTIONS = [
     "process death with a surviving operating system: bytes handed to write(2) persist, no power-loss reordering",
